@@ -573,47 +573,37 @@ ReaderFinish(s) ==
     /\ wsw' = [wsw EXCEPT ![s] = "none"]
     /\ UNCHANGED <<now, polls, psleep, wsin, wsgone, joiners, mon, nreq>>
 
-\* writer task: first run, or woken from poll()
-WriterBody(s) ==
-    IF g.ss[s].q = <<>> THEN
-        /\ g' = g
-        /\ polls' = Append(polls, [s |-> s, rid |-> 0, dl |-> now + PingInterval + PingTimeout,
-                                   kind |-> "writer"])
-        /\ wsw' = [wsw EXCEPT ![s] = "run"]
-        /\ UNCHANGED wsgone
-    ELSE
-        LET d == Drain(g.ss[s].q)
-            g1 == DoDrain(g, s)
-        IN IF d.pk = <<>> \/ wsgone[s] THEN
-               \* sentinel, or the socket is gone (send raises): leave the loop, close the ws
-               /\ g' = Out(g1, [k |-> "wsclose", s |-> s])
-               /\ wsw' = [wsw EXCEPT ![s] = "done"]
-               /\ wsgone' = [wsgone EXCEPT ![s] = TRUE]
-               /\ UNCHANGED polls
-           ELSE
-               \* all packets written; loop: poll again (blocks, the queue is now empty unless
-               \* a sentinel was re-put)
-               LET RECURSIVE Emit(_, _)
-                   Emit(gg, pk) == IF pk = <<>> THEN gg
-                                   ELSE Emit(WsOut(gg, s, Head(pk)), Tail(pk))
-                   g2 == Delivered(Emit(g1, d.pk), s, d.pk, "ws")
-               IN IF g2.ss[s].q = <<>> THEN
-                      /\ g' = g2
-                      /\ polls' = Append(polls, [s |-> s, rid |-> 0,
-                                                 dl |-> now + PingInterval + PingTimeout,
-                                                 kind |-> "writer"])
-                      /\ wsw' = [wsw EXCEPT ![s] = "run"]
-                      /\ UNCHANGED wsgone
-                  ELSE
-                      \* only a re-put sentinel can be left: next poll() returns [] -> exit
-                      /\ g' = Out(DoDrain(g2, s), [k |-> "wsclose", s |-> s])
-                      /\ wsw' = [wsw EXCEPT ![s] = "done"]
-                      /\ wsgone' = [wsgone EXCEPT ![s] = TRUE]
-                      /\ UNCHANGED polls
+\* writer task: poll(), write every packet, again - until poll() would block (queue empty),
+\* returns [] (sentinel) or a write fails (socket gone).  Returns the new g and whether the
+\* writer leaves its loop.
+RECURSIVE EmitAll(_, _, _)
+EmitAll(gg, s, pk) == IF pk = <<>> THEN gg ELSE EmitAll(WsOut(gg, s, Head(pk)), s, Tail(pk))
+
+RECURSIVE WLoop(_, _)
+WLoop(gg, s) ==
+    IF gg.ss[s].q = <<>> THEN [gn |-> gg, exit |-> FALSE]
+    ELSE LET d == Drain(gg.ss[s].q)
+             g1 == DoDrain(gg, s)
+         IN IF d.pk = <<>> \/ wsgone[s] THEN [gn |-> g1, exit |-> TRUE]
+            ELSE WLoop(Delivered(EmitAll(g1, s, d.pk), s, d.pk, "ws"), s)
+
+WriterRun(s, rest) ==
+    LET r == WLoop(g, s)
+    IN IF r.exit
+       THEN /\ g' = Out(r.gn, [k |-> "wsclose", s |-> s])
+            /\ wsw' = [wsw EXCEPT ![s] = "done"]
+            /\ wsgone' = [wsgone EXCEPT ![s] = TRUE]
+            /\ polls' = rest
+       ELSE /\ g' = r.gn
+            /\ wsw' = [wsw EXCEPT ![s] = "run"]
+            /\ polls' = Append(rest, [s |-> s, rid |-> 0,
+                                      dl |-> now + PingInterval + PingTimeout,
+                                      kind |-> "writer"])
+            /\ UNCHANGED wsgone
 
 WriterStart(s) ==
     /\ wsw[s] = "new"
-    /\ WriterBody(s)
+    /\ WriterRun(s, polls)
     /\ UNCHANGED <<now, psleep, wsr, wsin, joiners, mon, nreq>>
 
 WriterWake(i) ==
@@ -622,32 +612,7 @@ WriterWake(i) ==
     /\ LET s == polls[i].s
        IN /\ g.ss[s].q # <<>>
           /\ \A j \in 1..(i - 1) : polls[j].s # s
-          /\ LET rest == RemoveAt(polls, i)
-             IN \* WriterBody appends to polls'; express it over the list without entry i
-                IF FALSE THEN FALSE ELSE
-                LET d == Drain(g.ss[s].q)
-                    g1 == DoDrain(g, s)
-                IN IF d.pk = <<>> \/ wsgone[s] THEN
-                       /\ g' = Out(g1, [k |-> "wsclose", s |-> s])
-                       /\ wsw' = [wsw EXCEPT ![s] = "done"]
-                       /\ wsgone' = [wsgone EXCEPT ![s] = TRUE]
-                       /\ polls' = rest
-                   ELSE
-                       LET RECURSIVE Emit(_, _)
-                           Emit(gg, pk) == IF pk = <<>> THEN gg
-                                           ELSE Emit(WsOut(gg, s, Head(pk)), Tail(pk))
-                           g2 == Delivered(Emit(g1, d.pk), s, d.pk, "ws")
-                       IN IF g2.ss[s].q = <<>> THEN
-                              /\ g' = g2
-                              /\ polls' = Append(rest, [s |-> s, rid |-> 0,
-                                                        dl |-> now + PingInterval + PingTimeout,
-                                                        kind |-> "writer"])
-                              /\ UNCHANGED <<wsw, wsgone>>
-                          ELSE
-                              /\ g' = Out(DoDrain(g2, s), [k |-> "wsclose", s |-> s])
-                              /\ wsw' = [wsw EXCEPT ![s] = "done"]
-                              /\ wsgone' = [wsgone EXCEPT ![s] = TRUE]
-                              /\ polls' = rest
+          /\ WriterRun(s, RemoveAt(polls, i))
     /\ UNCHANGED <<now, psleep, wsr, wsin, joiners, mon, nreq>>
 
 \* the writer's poll() got nothing for I+T: it leaves and closes the websocket
